@@ -205,8 +205,15 @@ package commitlog
 //@   call (*deleteCleaner).Clean requires [retention-on-the-snapshot] arg1 == segments
 //@   ensures [something-left] err == nil && len(segments) >= 1 ==> len(cleaned) >= 1 && (forall j int :: 0 <= j && j < len(cleaned) ==> cleaned[j] != nil)
 //@   ensures assumed [epoch-caches-stay-well-formed] wfEpochs(l.leaderEpochCache) && (epochCache != nil ==> wfEpochs(epochCache) && epochCache != l.leaderEpochCache)
-//@ func (*commitLog).Clean serves C09
+// (C02) a compaction rebuilds the epoch history from the segments it scanned; epochs recorded in the log's own history
+// while the clean ran - from the base offset of the segment that was active when the clean started - are carried over
+// into the rebuilt history before it replaces the log's
+//@ ghost var epochsCarriedOver bool
+//@ func (*commitLog).Clean serves C09, C02
 //@   requires l != nil
+//@   ghost at entry: ghost.epochsCarriedOver := false
+//@   ghost after call Rebase: ghost.epochsCarriedOver := arg0 == epochCache && arg1 == l.leaderEpochCache && len(oldSegments) >= 1 && arg2 <= oldSegments[len(oldSegments)-1].BaseOffset
+//@   call Replace requires [C02:epochs-that-started-while-the-clean-ran-are-carried-over] ghost.epochsCarriedOver
 //@   assumes l.leaderEpochCache != nil && wfEpochs(l.leaderEpochCache)
 //@   call clean requires [cleans-the-snapshot] arg1 == oldSegments
 //@   call rebaseSegments requires [every-segment-appended-meanwhile-is-kept] arrOf(arg1) == arrOf(newSegments) && offOf(arg1) == offOf(newSegments) + len(oldSegments) && len(arg1) == len(newSegments) - len(oldSegments) && arg2 == cleaned
